@@ -13,7 +13,13 @@ namespace sim {
 void sim_free_public(void* p) { sim_free(p); }
 void* sim_malloc_public(size_t n) { return sim_malloc(n); }
 
-static MgrRec* rec_of(UriMemoryManager* m) { return (MgrRec*)m->userData; }
+// A manager may keep its state in the table object itself (pool allocators embed the table as first member), so the callbacks must be
+// entered with the very pointer the caller supplied, not with a copy of the table.
+static MgrRec* rec_of(UriMemoryManager* m) {
+    MgrRec* r = (MgrRec*)m->userData;
+    if (r->self && m != r->self) violate(V_BYPASS, "an allocator callback of manager m" + std::to_string(r->id) + " was entered with a manager pointer (" + addr_name(m) + ") that is not the table the caller supplied", false);
+    return r;
+}
 
 extern "C" {
 void* urisim_cb_malloc(UriMemoryManager* m, size_t n) { return heap_malloc(rec_of(m)->id, n, false, "malloc"); }
@@ -73,8 +79,9 @@ std::vector<MgrInst> build_managers(const std::vector<int>& kinds, const std::ve
         MgrInst m; m.kind = kinds[i]; m.id = kinds[i] == MK_LIBC ? 0 : (int)i + 1; m.mask = i < masks.size() ? masks[i] : 31;
         if (m.kind != MK_LIBC) {
             m.rec = (MgrRec*)arena_alloc(A_OBJ, sizeof(MgrRec), 8, perm(0, RS_NOT_DECLARED));   // the library has no business reading userData's target
-            m.rec->id = m.id; m.rec->kind = m.kind; m.rec->index = (int)i;
+            m.rec->id = m.id; m.rec->kind = m.kind; m.rec->index = (int)i; m.rec->self = nullptr;
             UriMemoryManager* t = (UriMemoryManager*)arena_alloc(A_OBJ, sizeof(UriMemoryManager), 16, P_RW);
+            m.rec->self = t;
             arena_alloc(A_OBJ, 32, 1, perm(0, RS_REDZONE));
             memset(t, 0, sizeof *t);
             if (m.kind == MK_SIM) {
